@@ -236,7 +236,7 @@ PROPERTIES = {
     },
     "C19": {
         "rule": "rapidcheck: (dt, S, T) rendered in an XML file and read by the real reader, ratio classes {S == dt, S = k dt, irrational, S "
-                "slightly above dt, S = 10..60 dt}, 1-130 iterations, 1-4 non-interacting cells, 0-4 forced removals / divisions at generated "
+                "slightly above dt, S = 10..60 dt}, 1-130 iterations, 1-4 non-interacting cells (epithelial, lumen or static: all of them grow a little at every iteration, so the rows of two records differ), 0-4 forced removals / divisions at generated "
                 "iterations, statistics to file or string, solver stepped with run_iteration() (3/4) or run() (1/4), 1-4 threads. "
                 "Non-trivial = >= 3 file pairs and (a population change between two recorded iterations, or more than 50 iterations, or run()); "
                 "distinct = hash of the case.",
